@@ -256,7 +256,7 @@ func runConfig(c config) {
 					return err
 				}
 				defer p.Close()
-				_, err = p.Do("GET", "/characteristics?id=1.2", "", nil)
+				_, err = p.Do("GET", "/characteristics?id=1.3", "", nil)
 				return err
 			})
 			switch {
